@@ -193,8 +193,16 @@ func (t *SimToken) ListKeys(opts token.ListOptions) error {
 	return token.NotImplementedError{Op: "list-keys", Type: SimTokenType}
 }
 
+// errClosed is what a session-backed token answers once its session has
+// been released.
+var errClosed = errors.New("simulated: the token session has been closed")
+
 func (t *SimToken) GetKey(ctx context.Context, keyName string) (token.Key, error) {
 	seq, out := t.begin("getkey", keyName)
+	if t.Closed {
+		t.end(seq, "closed")
+		return nil, errClosed
+	}
 	keyConf, err := t.Cfg.GetKey(keyName)
 	if err != nil {
 		t.end(seq, "config-error")
@@ -251,8 +259,17 @@ func (k *SimKey) Sign(rnd io.Reader, digest []byte, opts crypto.SignerOpts) ([]b
 
 func (k *SimKey) SignContext(ctx context.Context, digest []byte, opts crypto.SignerOpts) ([]byte, error) {
 	seq, out := k.T.begin("sign", k.Name)
+	if k.T.Closed {
+		k.T.end(seq, "closed")
+		return nil, errClosed
+	}
 	if err := k.T.perform(ctx, seq, out, k.Name); err != nil {
 		return nil, err
+	}
+	if k.T.Closed {
+		// the session went away while the operation was in progress
+		k.T.end(seq, "closed")
+		return nil, errClosed
 	}
 	return k.KM.Signer.Sign(rand.Reader, digest, opts)
 }
